@@ -20,3 +20,15 @@ Theorem C01_logicals_independent_of_stabilizers :
     forallb negb cs = true /\ forallb negb ds = true.
 Proof. exact logicals_independent_mod_stabilizers. Qed.
 Print Assumptions C01_logicals_independent_of_stabilizers.
+
+(** Layer P, Toric2DCode, EVERY lattice size L_x, L_y >= 2 (not only the grid): each vertex (Z-type)
+    operator and each face (X-type) operator of the parametric model share an even number of qubits,
+    i.e. they commute.  The model's tables are compared with the implementation's on the grid. *)
+From Coq Require Import ZArith.
+From PQ Require Import Toric2D.
+Theorem C01_toric2d_vertex_face_commute_for_all_sizes :
+  forall (Lx Ly : BinNums.Z) v f, (2 <= Lx)%Z -> (2 <= Ly)%Z -> In v (stab_coords Lx Ly) -> In f (stab_coords Lx Ly) ->
+  is_vertex v = true -> is_vertex f = false ->
+  overlap_par (support Lx Ly v) (support Lx Ly f) = false.
+Proof. exact toric2d_vertex_face_commute. Qed.
+Print Assumptions C01_toric2d_vertex_face_commute_for_all_sizes.
